@@ -355,6 +355,9 @@ func (w *World) OpenAppVia(ups *upstream.Upstreams, channel string, expect func(
 	return ep
 }
 
+// StdioWriters returns the write ends of the two stdio pipes (client->server, server->client).
+func (w *World) StdioWriters() (*netsim.MemConn, *netsim.MemConn) { return w.stdioC2S, w.stdioS2C }
+
 // CarrierClientEnd returns the client end of the n-th physical carrier connection (stream
 // and ws carriers), for fault plans.
 func (w *World) CarrierClientEnd(n int) *netsim.MemConn {
